@@ -33,6 +33,10 @@ N_HISTORIES = {'quick': 10, 'thorough': 160}
 MIN_OBS = {'runs_compared': {'quick': 10, 'thorough': 200}, 'truncations': {'quick': 10, 'thorough': 60}}
 
 
+# scripted type-flow histories: (project shape, module that decides a type, variant field)
+SCRIPTED = [('chain', 'l', 't'), ('diamond', 'l', 't'), ('deep', 'k', 't'), ('chain', 'u', 'lt'), ('deep', 'u', 'lt')]
+
+
 def diff_outputs(a: dict[str, str], b: dict[str, str]) -> str | None:
 	if set(a) != set(b):
 		return f'file sets differ: only warm {sorted(set(a) - set(b))}, only cold {sorted(set(b) - set(a))}'
@@ -178,10 +182,10 @@ def shard(ctx: Ctx, acc: Acc) -> None:
 			acc.extra.setdefault('harness_errors', []).append(fmt_exc(e))
 			return
 		# scripted type-flow histories, one per project shape: only the module that decides the type changes
-		for j, (shape, key) in enumerate([('chain', 'l'), ('diamond', 'l'), ('deep', 'k')]):
+		for j, (shape, key, field) in enumerate(SCRIPTED):
 			if (j + 1) % ctx.nshards == ctx.shard:
 				try:
-					run_history(acc, ctx.rng('scripted', j), workdir, 9000 + j, 0, shape, [(key, {'t': 'str'}), (key, {'t': 'float'}), (key, {'t': 'int', 'extra': 1})])
+					run_history(acc, ctx.rng('scripted', j), workdir, 9000 + j, 0, shape, [(key, {field: 'str'}), (key, {field: 'float'}), (key, {field: 'int', 'extra': 1})])
 				except Exception as e:  # noqa
 					acc.extra.setdefault('harness_errors', []).append(fmt_exc(e))
 					return
@@ -209,8 +213,8 @@ def replay(ctx: Ctx, case: dict, acc: Acc) -> None:
 		else:
 			if case.get('seed', 0) >= 9000:
 				j = case['seed'] - 9000
-				shape, key = [('chain', 'l'), ('diamond', 'l'), ('deep', 'k')][j]
-				run_history(acc, ctx.rng('scripted', j), workdir, case['seed'], 0, shape, [(key, {'t': 'str'}), (key, {'t': 'float'}), (key, {'t': 'int', 'extra': 1})])
+				shape, key, field = SCRIPTED[j]
+				run_history(acc, ctx.rng('scripted', j), workdir, case['seed'], 0, shape, [(key, {field: 'str'}), (key, {field: 'float'}), (key, {field: 'int', 'extra': 1})])
 			else:
 				run_history(acc, ctx.rng('history', case.get('seed', 0)), workdir, case.get('seed', 0), 9)
 	finally:
